@@ -60,6 +60,8 @@ class SQLiteValue(Value):
             return self.quote_str(datetime2timestamp(value))
         if isinstance(value, datetime.date):
             return self.quote_str(str(value))
+        if isinstance(value, datetime.time):
+            return self.quote_str(value.isoformat())
         if isinstance(value, datetime.timedelta):
             return repr(value.total_seconds() / (24 * 60 * 60))
         return Value.__str__(self)
